@@ -251,3 +251,103 @@ Example C15_examples_blocking :
   /\ read_response Cur 9 (ex_world ["(error ""unexpected token, '(' expected"")
 "] TAlive) = Blocked.
 Proof. vm_compute. repeat split; reflexivity. Qed.
+
+(* ================================================================== PDR (added by the C10 work) *)
+
+(** ** solver faults in the concrete model of pdr.rs (Model/PdrImpl.v)
+
+    The model's oracle may answer [AErr e] or [AUnknown] at ANY query (a query = one call of pdr.rs'
+    [query]: check-sat-assuming, the get-value calls of a model, get-unsat-assumptions), any
+    declare/assert/define command may fail ([cmd_fail]), the BMC fallback (restart + bmc) may fail
+    ([BmcErr]); the model does with them exactly what pdr.rs does (`?` everywhere;
+    [CheckSatResponse::Unknown] site by site).  These theorems are about the control flow only: no
+    hypothesis on the oracle at all.  Tie to the real code: ./check C10 injects `unknown` / an error at
+    response-bearing calls of real PDR runs (a SolverContext wrapper, as in the C15 context-level fault
+    harness) and replays the recorded trace, fault included, against the extracted model. *)
+From Patronus Require Ic3 PdrImpl PdrImplProofs PdrFaultProofs.
+
+(** Errors propagate.  (1) A verdict (Success, Fail or Unknown) is returned only by runs whose log is
+    [clean]: no consulted answer was an error (and unknown answers occur only where (C15_pdr_model_unknown)
+    allows them) - a verdict is never computed from answers that come after an error.  (2) When the model
+    returns a solver error it is the FIRST error of the run, with the oracle's own message: the newest
+    event of the log is the failing consultation (query answer, command, or BMC fallback), everything
+    before it is clean. *)
+Theorem C15_pdr_model_propagates :
+  forall (lit : Type) (lit_eqb : lit -> lit -> bool) (St : Type) (cube_of_state : St -> list lit) (W EM : Type)
+         (solve : nat -> PdrImpl.query lit -> PdrImpl.answer lit St EM) (cmd_fail : nat -> option EM) (n_init : nat)
+         (gen_on has_bads : bool) (bmc_result : PdrImpl.bmc_answer W EM) (fuel bf : nat),
+    (forall v st', PdrImpl.pdr lit lit_eqb St cube_of_state W EM solve cmd_fail n_init gen_on has_bads bmc_result fuel bf
+                   = @PdrImpl.Ok lit St EM _ (v, st') ->
+                   PdrFaultProofs.clean lit St EM (PdrImpl.p_log lit St EM st')) /\
+    (forall m log, PdrImpl.pdr lit lit_eqb St cube_of_state W EM solve cmd_fail n_init gen_on has_bads bmc_result fuel bf
+                   = @PdrImpl.Err lit St EM _ (PdrImpl.ESolver EM m) log ->
+                   exists ev l0, log = ev :: l0 /\ PdrFaultProofs.clean lit St EM l0 /\
+                                 PdrFaultProofs.consulted_error lit St W EM solve cmd_fail bmc_result ev m).
+Proof. exact PdrFaultProofs.pdr_model_propagates. Qed.
+Print Assumptions C15_pdr_model_propagates.
+
+(** Unknown answers.  (1) [Err (EUnknown k)] is returned exactly as pdr.rs does: the run stopped at a
+    query of kind k - get_bad_cube, fix_gen_cube's two queries, the obligation's own relative-induction
+    query in block_cube - that was answered unknown, after a clean log.  (2) In a run that returns a
+    verdict, unknown answers occur only at relative-induction queries (pushing loop, propagation) and
+    at the query against the infinite frame: there pdr.rs treats "unknown" like "not unsat" (the cube is
+    simply not pushed / not propagated) and goes on. *)
+Theorem C15_pdr_model_unknown :
+  forall (lit : Type) (lit_eqb : lit -> lit -> bool) (St : Type) (cube_of_state : St -> list lit) (W EM : Type)
+         (solve : nat -> PdrImpl.query lit -> PdrImpl.answer lit St EM) (cmd_fail : nat -> option EM) (n_init : nat)
+         (gen_on has_bads : bool) (bmc_result : PdrImpl.bmc_answer W EM) (fuel bf : nat),
+    (forall k log, PdrImpl.pdr lit lit_eqb St cube_of_state W EM solve cmd_fail n_init gen_on has_bads bmc_result fuel bf
+                   = @PdrImpl.Err lit St EM _ (PdrImpl.EUnknown EM k) log ->
+                   exists q l0 n, log = PdrImpl.EvQuery lit St EM q (PdrImpl.AUnknown lit St EM) :: l0 /\
+                                  PdrFaultProofs.clean lit St EM l0 /\ PdrImpl.q_kind lit q = k /\
+                                  solve n q = PdrImpl.AUnknown lit St EM) /\
+    (forall v st' q, PdrImpl.pdr lit lit_eqb St cube_of_state W EM solve cmd_fail n_init gen_on has_bads bmc_result fuel bf
+                     = @PdrImpl.Ok lit St EM _ (v, st') ->
+                     In (PdrImpl.EvQuery lit St EM q (PdrImpl.AUnknown lit St EM)) (PdrImpl.p_log lit St EM st') ->
+                     PdrImpl.q_kind lit q = PdrImpl.KRelInd \/ PdrImpl.q_kind lit q = PdrImpl.KInf).
+Proof. exact PdrFaultProofs.pdr_model_unknown. Qed.
+Print Assumptions C15_pdr_model_unknown.
+
+(** ... and such verdicts do not REST on the unknown answers: the soundness theorems of the model
+    (Props/C10.v: C10_pdr_model_success_sound / _fail_real / their _sys forms) hold for every oracle whose
+    sat and unsat answers are truthful - [AUnknown] and [AErr] answers carry no obligation ([truthful]
+    is [True] for them).  The STRICT reading "an unknown answer is never followed by Success or Fail" is
+    false of pdr.rs and of the model: *)
+Definition c15x_lit : Type := (nat * bool)%type.
+Definition c15x_lit_eqb (a b : c15x_lit) : bool := andb (Nat.eqb (fst a) (fst b)) (Bool.eqb (snd a) (snd b)).
+Definition c15x_holds (l : c15x_lit) (s : nat) : bool := Bool.eqb (Nat.testbit s (fst l)) (snd l).
+Definition c15x_cube (s : nat) : list c15x_lit := (0%nat, Nat.testbit s 0) :: (1%nat, Nat.testbit s 1) :: nil.
+Definition c15x_step0 (s s' : nat) : bool := andb (Nat.eqb s 0) (Nat.eqb s' 1).
+Definition c15x_trans (s s' : nat) : bool := Nat.eqb s' (if Nat.leb 2 s then 0%nat else S s).
+Definition c15x_states : list nat := (0 :: 1 :: 2 :: 3 :: nil)%nat.
+(** the exhaustive-search oracle of the counter 0 -> 1 -> 2 -> 0, except that query number k gets [a] *)
+Definition c15x_oracle (bad : nat -> bool) (k : nat) (a : PdrImpl.answer c15x_lit nat unit)
+           (n : nat) (q : PdrImpl.query c15x_lit) : PdrImpl.answer c15x_lit nat unit :=
+  if Nat.eqb n k then a
+  else PdrImpl.enum_solve c15x_lit nat unit c15x_holds (fun s => andb (Nat.eqb s 0) (bad s)) c15x_step0 c15x_trans bad c15x_states n q.
+Definition c15x_run (bad : nat -> bool) (gen : bool) (k : nat) (a : PdrImpl.answer c15x_lit nat unit) :=
+  PdrImpl.pdr c15x_lit c15x_lit_eqb nat c15x_cube unit unit (c15x_oracle bad k a) (fun _ => None) 3 gen true
+              (PdrImpl.BmcFail unit unit tt) 50 50.
+Definition c15x_has_unknown (l : list (PdrImpl.event c15x_lit nat unit)) : bool :=
+  existsb (fun ev => match ev with PdrImpl.EvQuery _ _ _ _ (PdrImpl.AUnknown _ _ _) => true | _ => false end) l.
+
+Theorem C15_pdr_unknown_never_verdict_refuted :
+  (* bad = 3 (safe): query 4 - a propagation query - answered unknown, the run still returns Success *)
+  (match c15x_run (fun s => Nat.eqb s 3) false 4 (PdrImpl.AUnknown _ _ _) with
+   | PdrImpl.Ok (PdrImpl.VSuccess _, st) => c15x_has_unknown (PdrImpl.p_log _ _ _ st)
+   | _ => false end) = true /\
+  (* bad = 2 (unsafe): query 4 - a query of the pushing loop - answered unknown, the run still returns Fail *)
+  (match c15x_run (fun s => Nat.eqb s 2) false 4 (PdrImpl.AUnknown _ _ _) with
+   | PdrImpl.Ok (PdrImpl.VFail _ _, st) => c15x_has_unknown (PdrImpl.p_log _ _ _ st)
+   | _ => false end) = true.
+Proof. vm_compute. split; reflexivity. Qed.
+Print Assumptions C15_pdr_unknown_never_verdict_refuted.
+
+(** Non-vacuity of the two theorems above: an error answer at query 2 is returned as the run's result,
+    an unknown answer to the first get_bad_cube query (query 0) gives [Err (EUnknown KBad)]. *)
+Example C15_pdr_model_examples :
+  (match c15x_run (fun s => Nat.eqb s 3) true 2 (PdrImpl.AErr _ _ _ tt) with
+   | PdrImpl.Err (PdrImpl.ESolver _ tt) (PdrImpl.EvQuery _ _ _ _ (PdrImpl.AErr _ _ _ tt) :: _) => true | _ => false end) = true /\
+  (match c15x_run (fun s => Nat.eqb s 3) true 0 (PdrImpl.AUnknown _ _ _) with
+   | PdrImpl.Err (PdrImpl.EUnknown _ PdrImpl.KBad) _ => true | _ => false end) = true.
+Proof. vm_compute. split; reflexivity. Qed.
